@@ -114,6 +114,7 @@ struct RunOut {
     max_pending: u64,
     deadlock: bool,
     errors: u64,
+    accounting_calls: u64,
     inconclusive: Option<String>,
 }
 
@@ -122,6 +123,7 @@ struct Shared {
     ts: AtomicU64,
     completed: AtomicU64,
     current: Vec<AtomicU64>,
+    accounting_calls: AtomicU64,
 }
 
 async fn client(s: Arc<Storage<ArrayKey<8>>>, sh: Arc<Shared>, rc: RunCfg, id: usize, salt: u64, seed: u64) -> Vec<OpRec> {
@@ -132,6 +134,35 @@ async fn client(s: Arc<Storage<ArrayKey<8>>>, sh: Arc<Shared>, rc: RunCfg, id: u
         let k = ArrayKey::<8>::from(key_bytes(salt, key, 8));
         let kind = if rc.overfull_probe { 0 } else { rng.weighted(&[45, 8, 32, 15]) as u8 };
         let mut r = OpRec { client: id as u32, kind, key, ts: 0, val: 0, size: 0, inv: 0, ret: 0, res: 0, obs_ts: 0, obs_val: 0, obs_ok_bytes: true, err: false };
+        // now and then a client also asks for one of the accounting figures (answers are not judged here: they
+        // are transient under concurrency); the calls take the storage's locks in their own order, and a call that
+        // never returns is seen by the deadlock monitor like any other pending operation
+        if !rc.overfull_probe && rng.chance(1, 10) {
+            let mark = sh.seq.fetch_add(1, Ordering::SeqCst);
+            sh.current[id].store(mark + 1, Ordering::SeqCst);
+            match rng.below(6) {
+                0 => {
+                    let _ = s.records_count().await;
+                }
+                1 => {
+                    let _ = s.records_count_detailed().await;
+                }
+                2 => {
+                    let _ = s.disk_used().await;
+                }
+                3 => {
+                    let _ = s.blobs_count().await;
+                }
+                4 => {
+                    let _ = s.index_memory().await;
+                }
+                _ => {
+                    let _ = s.records_count_in_active_blob().await;
+                }
+            }
+            sh.current[id].store(0, Ordering::SeqCst);
+            sh.accounting_calls.fetch_add(1, Ordering::SeqCst);
+        }
         match kind {
             0 => {
                 r.ts = if rc.tied { rng.range(1, 3) } else { sh.ts.fetch_add(1, Ordering::SeqCst) };
@@ -304,7 +335,7 @@ fn check_history(ops: &[OpRec], tied: bool) -> (Option<(String, String)>, u64, u
 }
 
 async fn run(dir: std::path::PathBuf, cfg: Cfg, rc: RunCfg, seed: u64) -> RunOut {
-    let mut out = RunOut { violation: None, ops: 0, reads_checked: 0, blobs: 0, records_on_disk: 0, interleaving: 0, max_pending: 0, deadlock: false, errors: 0, inconclusive: None };
+    let mut out = RunOut { violation: None, ops: 0, reads_checked: 0, blobs: 0, records_on_disk: 0, interleaving: 0, max_pending: 0, deadlock: false, errors: 0, accounting_calls: 0, inconclusive: None };
     let mut rng = Rng::new(seed);
     let mut s: Storage<ArrayKey<8>> = match builder_for(&cfg, &dir).build() {
         Ok(s) => s,
@@ -319,7 +350,7 @@ async fn run(dir: std::path::PathBuf, cfg: Cfg, rc: RunCfg, seed: u64) -> RunOut
     }
     let salt = cfg.key_salt;
     let mut base_ops: Vec<OpRec> = Vec::new();
-    let shared = Arc::new(Shared { seq: AtomicU64::new(1), ts: AtomicU64::new(10), completed: AtomicU64::new(0), current: (0..rc.clients + 1).map(|_| AtomicU64::new(0)).collect() });
+    let shared = Arc::new(Shared { seq: AtomicU64::new(1), ts: AtomicU64::new(10), completed: AtomicU64::new(0), current: (0..rc.clients + 1).map(|_| AtomicU64::new(0)).collect(), accounting_calls: AtomicU64::new(0) });
     if rc.reopened {
         // a few records, clean close, reopen: the active blob is a reopened file
         for k in 0..rc.keys.min(4) {
@@ -459,6 +490,7 @@ async fn run(dir: std::path::PathBuf, cfg: Cfg, rc: RunCfg, seed: u64) -> RunOut
     }
     tap::clear_faults(&dir);
     out.ops = ops.len() as u64;
+    out.accounting_calls = shared.accounting_calls.load(Ordering::SeqCst);
     // an operation that returned an error is not acknowledged: it may or may not have taken effect
     out.errors = ops.iter().filter(|o| o.err).count() as u64;
     let (v, rc_n, inter) = check_history(&ops, rc.tied);
@@ -689,6 +721,7 @@ pub fn shard(ctx: &Ctx) -> Shard {
                 sh.add("operations_that_returned_an_error", out.errors);
                 sh.add("reads_checked_against_history", out.reads_checked);
                 sh.add("blob_files_parsed", out.blobs);
+                sh.add("concurrent_accounting_calls", out.accounting_calls);
                 sh.add("records_on_disk_matched", out.records_on_disk);
                 sh.max("max_concurrently_pending_operations", out.max_pending);
                 sh.add(&format!("runs_clients_{:04}", rc.clients), 1);
